@@ -10,8 +10,8 @@ For the ecocredit family every entry names
   gen     : list of (cfg, behaviours, depth) to simulate for the quick tier
 """
 
-ECO_GEN_Q = [("credits_g", 40, 20), ("market_g", 64, 25), ("basket_g", 32, 25), ("basket2_g", 24, 20)]
-ECO_GEN_T = [("credits_g", 300, 30), ("market_g", 500, 30), ("basket_g", 300, 30), ("basket2_g", 200, 25)]
+ECO_GEN_Q = [("credits_g", 32, 20), ("market_g", 64, 25), ("basket_g", 32, 25), ("basket2_g", 24, 20), ("roles_g", 24, 20), ("bridge_g", 32, 20), ("params_g", 40, 20)]
+ECO_GEN_T = [("credits_g", 300, 30), ("market_g", 500, 30), ("basket_g", 300, 30), ("basket2_g", 200, 25), ("roles_g", 200, 25), ("bridge_g", 300, 25), ("params_g", 300, 25)]
 
 PROFILES = [
     {"unit": "1000000", "render": 0},   # whole credits, plain decimals
@@ -76,6 +76,35 @@ PROPS = {
         inv=["C12_NoneExpired"],
         step=["C12_Expiry", "C12_NoBuyExpired", "C12_ExpirationAsRequested"],
         tinv=["T_C12_BlockNeverFails"],
+    ),
+    "C08": dict(
+        family="eco",
+        mc=[("roles_q", 120), ("allow_q", 60), ("market_q", 300)],
+        inv=[],
+        step=["C08_Authorised", "C08_Footprint", "C08_SealedStaysSealed"],
+        tinv=[],
+    ),
+    "C13": dict(
+        family="eco",
+        mc=[("bridge_q", 200)],
+        inv=["C13_AtMostOnce", "C13_ContractsUnique"],
+        step=["C13_AllowedSource", "C13_BindingPermanent", "C13_ReceiveIntoBound", "C13_BridgeOut"],
+        tinv=[],
+    ),
+    "C14": dict(
+        family="eco",
+        mc=[("roles_q", 120), ("allow_q", 60), ("bridge_q", 200), ("credits_q", 120)],
+        inv=["C14_Unique", "C14_References", "C14_Format"],
+        step=["C14_Consecutive"],
+        tinv=[],
+    ),
+    "C18": dict(
+        family="eco",
+        mc=[("params_q", 300), ("zerofee_q", 60)],
+        inv=[],
+        step=["C18_FeeExact", "C18_NoFeatureDisabled"],
+        tinv=[],
+        tstep=["T_C18_NoAbnormalAbort"],
     ),
     "C04": dict(
         family="eco",
